@@ -85,6 +85,21 @@ def parseList (s : String) : List Nat := (s.splitOn ",").filterMap String.toNat?
 def libImplemented (cc : Nat) : Bool := match Gen.ccTable.find? (·.1 == cc) with | some (_, _, _, impl, _) => impl | none => false
 def hexNat (s : String) : Nat := s.toList.foldl (fun acc c => acc * 16 + ((hexVal c).getD 0)) 0
 
+/-- what each attribute name stands for (libtpms documentation of the profile attributes), independent of the generated table -/
+def specAttrFlags (name : String) : Option Nat :=
+  if name = "no-unpadded-encryption" then some ATTR_NO_UNPADDED_ENCRYPTION
+  else if name = "no-sha1-signing" then some ATTR_NO_SHA1_SIGNING
+  else if name = "no-sha1-verification" then some ATTR_NO_SHA1_VERIFICATION
+  else if name = "no-sha1-hmac-creation" then some ATTR_NO_SHA1_HMAC_CREATION
+  else if name = "no-sha1-hmac-verification" then some ATTR_NO_SHA1_HMAC_VERIFICATION
+  else if name = "no-sha1-hmac" then some (ATTR_NO_SHA1_HMAC_CREATION ||| ATTR_NO_SHA1_HMAC_VERIFICATION)
+  else if name = "fips-host" then some (ATTR_NO_UNPADDED_ENCRYPTION ||| ATTR_NO_SHA1_SIGNING ||| ATTR_NO_SHA1_VERIFICATION)
+  else if name = "no-ecc-key-derivation" then some ATTR_NO_ECC_KEY_DERIVATION
+  else if name = "drbg-continous-test" ∨ name = "pct" then some 0
+  else none
+def observable : Nat := ATTR_NO_UNPADDED_ENCRYPTION ||| ATTR_NO_SHA1_SIGNING ||| ATTR_NO_SHA1_VERIFICATION ||| ATTR_NO_SHA1_HMAC_CREATION ||| ATTR_NO_SHA1_HMAC_VERIFICATION ||| ATTR_NO_ECC_KEY_DERIVATION
+def specFlagsOf (attrs : String) : Nat := ((attrs.splitOn ",").filterMap specAttrFlags).foldl (· ||| ·) 0
+
 def checkSurface (c : CS) (tag : String) : CS :=
   match c.enabled, c.algs with
   | some en, some a =>
@@ -129,7 +144,12 @@ def step (c : CS) (l : Line) : CS :=
       -- a profile that must be rejected may be refused by SetProfile or, at the latest, by MainInit
       let c := { c with pendingReject := if v.isNone ∧ l.nat "ret" = 0 then some js else none }
       match v with
-      | some (en, a, s, fl) => { c with enabled := some en, algs := some a, sfl := s, attrFlags := fl }
+      | some (en, a, s, fl) =>
+        let spec := specFlagsOf ((strField js "Attributes").getD "")
+        let c := if fl &&& observable ≠ spec &&& observable then
+          mism c s!"SPEC[attribute-table] the attributes {(strField js "Attributes").getD ""} switch on flags {fl} by the library's table, {spec} by their definition" else c
+        -- the probes are judged against what the attributes mean
+        { c with enabled := some en, algs := some a, sfl := s, attrFlags := spec ||| fl }
       | none => c
   | "maininit" =>
       match c.pendingReject with
